@@ -1,4 +1,6 @@
-From SV Require Import Base.ListX Store.Masked World.Env World.Join World.JoinProps World.EnvSim.
+From SV Require Import Base.ListX Store.Masked World.Env World.Join World.JoinProps World.JoinAbs World.JoinRefine
+  World.JoinAbsProps World.EnvSim.
+From Coq Require Import Sorting.Permutation.
 From SV Require Import Props.C07.
 Check (C07_parallel_is_sequential : forall e av eids hs n ms,
   join_ok e (JPar n) ms = true -> join_ok e (JSeq None) ms = true ->
@@ -11,3 +13,17 @@ Check (C07_each_index_exactly_once : forall e av eids hs n ms l e',
 Check (C07_any_storage_kind : forall e1 e2 av eids hs n ms, env_rel e1 e2 ->
   snd (env_join e1 av eids hs (JPar n) ms) = snd (env_join e2 av eids hs (JPar n) ms) /\
   env_rel (fst (env_join e1 av eids hs (JPar n) ms)) (fst (env_join e2 av eids hs (JPar n) ms))).
+Check (C07_any_split_same_final_storages : forall unit av hs excl eids ms keys keys' S s j, NoDup keys -> Permutation keys keys' ->
+  cell (fst (a_visit_keys unit av hs excl eids ms keys S)) s j = cell (fst (a_visit_keys unit av hs excl eids ms keys' S)) s j).
+Check (C07_any_split_same_indices : forall unit av hs excl eids ms keys keys' S, Permutation keys keys' ->
+  Permutation (map fst (snd (a_visit_keys unit av hs excl eids ms keys S))) (map fst (snd (a_visit_keys unit av hs excl eids ms keys' S)))).
+Check (C07_any_split_same_items : forall unit av hs excl eids pre m post s keys keys' S, NoDup keys -> Permutation keys keys' ->
+  reads_cell m s = true -> forallb (fun m' => negb (m_owns m' s)) pre = true ->
+  forall j xs xs', In (j, xs) (snd (a_visit_keys unit av hs excl eids (pre ++ m :: post) keys S)) ->
+                   In (j, xs') (snd (a_visit_keys unit av hs excl eids (pre ++ m :: post) keys' S)) ->
+  nth_error xs (length pre) = nth_error xs' (length pre)).
+Check (C07_visits_of_distinct_indices_do_not_interfere : forall unit av hs excl eids ms i S s j, i <> j ->
+  cell (fst (a_visit_members unit av hs excl eids ms i S)) s j = cell S s j).
+Check (C07_join_refines_the_join_on_maps : forall unit av hs excl eids ms keys e S, absrel unit e S ->
+  snd (visit_keys av hs excl eids ms keys e) = snd (a_visit_keys unit av hs excl eids ms keys S) /\
+  absrel unit (fst (visit_keys av hs excl eids ms keys e)) (fst (a_visit_keys unit av hs excl eids ms keys S))).
